@@ -90,13 +90,13 @@ Section SQL.
     | [] => Ok []
     | _ =>
         let generic := Ok (join [cLF] (map (fun l => s2l "-- " ++ l) (split_on cLF (prepare_text_for_sql (n_text n))))) in
-        let comment_on (entity : pystr) (name : option pystr) :=
-          Ok (s2l "COMMENT ON " ++ entity ++ s2l " " ++ q2 (fstr name) ++ s2l " IS "
+        let comment_on (entity : pystr) (qname : pystr) :=
+          Ok (s2l "COMMENT ON " ++ entity ++ s2l " " ++ qname ++ s2l " IS "
               ++ cSQ :: prepare_text_for_sql (n_text n) ++ [cSQ; 59%N]) in
         match n_parent n with
         | Some p => match nth_error h p with
-                    | Some (OTable t) => comment_on (s2l "TABLE") (t_name t)
-                    | Some (OColumn c) => comment_on (s2l "COLUMN") (c_name c)
+                    | Some (OTable t) => comment_on (s2l "TABLE") (full_name_for_sql (t_schema t) (t_name t))
+                    | Some (OColumn c) => comment_on (s2l "COLUMN") (q2 (fstr (c_name c)))
                     | _ => generic
                     end
         | None => generic
@@ -174,7 +174,7 @@ Section SQL.
         else
           do tname <- match i_table i with
                       | Some t => match h_table h t with
-                                  | Some tb => Ok (fstr (t_name tb))
+                                  | Some tb => Ok (full_name_for_sql (t_schema tb) (t_name tb))
                                   | None => Raise (EStuck 50)
                                   end
                       | None => Raise (EStuck 51)
@@ -182,7 +182,7 @@ Section SQL.
           Ok (with_comment (i_comment i)
                 (s2l "CREATE " ++ (if i_unique i then s2l "UNIQUE " else []) ++ s2l "INDEX "
                  ++ (if truthy (i_name i) then q2 (fstr (i_name i)) ++ [cSP] else [])
-                 ++ s2l "ON " ++ q2 tname ++ [cSP]
+                 ++ s2l "ON " ++ tname ++ [cSP]
                  ++ (if truthy (i_type i) then s2l "USING " ++ upper (fstr (i_type i)) ++ [cSP] else [])
                  ++ 40%N :: keys ++ s2l ");"))
     end.
@@ -318,7 +318,7 @@ Definition sql_table (h : heap) (tid : oid) (t : table) : res pystr :=
            end;
   do cn <- mapM (fun cc => match h_note h (c_note cc) with
                            | Some n => if is_nil (n_text n) then Ok []
-                                       else Ok (cLF :: cLF :: s2l "COMMENT ON COLUMN " ++ q2 (fstr (t_name t)) ++ 46%N
+                                       else Ok (cLF :: cLF :: s2l "COMMENT ON COLUMN " ++ full_name_for_sql (t_schema t) (t_name t) ++ 46%N
                                                 :: q2 (fstr (c_name cc)) ++ s2l " IS " ++ cSQ
                                                 :: prepare_text_for_sql (n_text n) ++ [cSQ; 59%N])
                            | None => Raise (EStuck 63)
